@@ -76,6 +76,10 @@ func NewAsyncProducer(t ErrorReporter, config *sarama.Config) *AsyncProducer {
 						if err != nil {
 							mp.t.Errorf("Check function returned an error: %s", err.Error())
 							mp.errors <- &sarama.ProducerError{Err: err, Msg: msg}
+							// the checker's error is this message's outcome: do not also
+							// deliver the expectation's scripted result for it
+							mp.l.Unlock()
+							continue
 						}
 					}
 					if expectation.Result == errProduceSuccess {
